@@ -169,6 +169,21 @@ impl SqlEnv {
         Ok(())
     }
 
+    /// A write that fails in the middle (an injected ABORT on the row for `transfer_id`) must
+    /// leave the stored migration untouched. Returns Ok(None) if the fault did not fire.
+    pub fn faulted_replace(&mut self, s: &MigrationState, transfer_id: u32) -> Result<Option<String>, String> {
+        self.conn()
+            .execute_batch(&format!(
+                "CREATE TEMP TRIGGER c18_fault BEFORE INSERT ON main.orchard_ironwood_migration_transactions
+                 WHEN NEW.transfer_id = {transfer_id}
+                 BEGIN SELECT RAISE(ABORT, 'c18 injected fault'); END;"
+            ))
+            .map_err(e)?;
+        let r = self.replace(s);
+        self.conn().execute_batch("DROP TRIGGER c18_fault;").map_err(e)?;
+        Ok(r.err())
+    }
+
     pub fn wallet_tip(&self) -> u32 {
         u32::from(self.st.wallet().chain_height().unwrap().unwrap())
     }
